@@ -40,7 +40,11 @@ def session_job(spec):
         nbits, c = s["nbits"], s["nchans"]
         # the source header may have ANY depth / channel count: the output's are given to prep_outfile
         src_nbits = s.get("src_nbits", nbits)
-        hdr = _hdr(d, f"{spec['id']}_{si}", c if src_nbits == nbits else 8, src_nbits)
+        # 'plain': the depth is changed by the nbits argument ALONE (no updates dict) - the path the library's own
+        # requantize / to_tim / to_spec take; the sessions of a job run in ONE process, so whatever a call leaves behind
+        # (a default argument, a cached header) is there for the next
+        plain = bool(s.get("plain")) and src_nbits != nbits and (c * src_nbits) % 8 == 0
+        hdr = _hdr(d, f"{spec['id']}_{si}", c if (src_nbits == nbits or plain) else 8, src_nbits)
         path = str(d / f"out_{spec['id']}_{si}.fil")
         ev = []
         top = min(2 ** nbits - 1, 1000) if nbits < 32 else 1000
@@ -48,7 +52,7 @@ def session_job(spec):
             if s.get("updates"):
                 w = hdr.prep_outfile(path, updates={"nchans": c, "source": "requant"}, nbits=nbits)
             else:
-                w = hdr.prep_outfile(path, nbits=nbits) if src_nbits == nbits else \
+                w = (hdr.prep_outfile(path) if (s.get("bare") and src_nbits == nbits) else hdr.prep_outfile(path, nbits=nbits)) if (src_nbits == nbits or plain) else \
                     hdr.prep_outfile(path, updates={"nchans": c}, nbits=nbits)
             hl = os.path.getsize(path)
             ev.append({"a": "prep", "size": hl})
@@ -174,12 +178,13 @@ def run(v) -> None:
                 for dts in itertools.product(DT, repeat=k):
                     seqs.append([(rng.choice([1, 2, 3]), dt) for dt in dts])
             rng.shuffle(seqs)
-            for j, s in enumerate(seqs[: (12 if quick else 200)]):
+            for j, s in enumerate(seqs[: (12 if quick else 1000)]):
                 sessions.append({"nbits": nbits, "nchans": c, "writes": s,
-                                 "src_nbits": nbits if j % 3 == 0 else rng.choice([1, 2, 4, 8, 16, 32]), "updates": j % 2 == 1})
+                                 "src_nbits": nbits if j % 3 == 0 else rng.choice([1, 2, 4, 8, 16, 32]), "updates": j % 4 == 1,
+                                 "plain": j % 4 in (2, 3), "bare": j % 3 == 0 and j % 4 != 1 and j % 2 == 0})
     trips = []
     for fmt in ("tim", "dat", "spec", "fft", "block"):
-        for n in ([1, 2, 7, 24, 125] if quick else [1, 2, 3, 7, 24, 64, 125, 1000]):
+        for n in ([1, 2, 7, 24, 125] if quick else [1, 2, 3, 5, 7, 8, 9, 24, 64, 125, 513, 1000, 4099]):
             for (tsamp, tstart, dm) in [(0.001, 50000.0, 0.0), (6.4e-5, 58000.123456789, 12.345), (1.0 / 3.0, 60000.5, 0.1)]:
                 t = {"fmt": fmt, "n": n, "tsamp": tsamp, "tstart": tstart, "dm": dm}
                 if fmt == "block":
